@@ -30,7 +30,11 @@ func init() {
 		// blanks at the edges are part of a name
 		"w ", " w", "w", "nb\u00a0", "tab\t", "\u3000wide",
 		// characters a serialiser has to escape and a reader has to take back: controls, DEL, private-use and non-characters
-		"del\x7f", "bell\a", "v\vt", "\x01soh", "esc\x1b[0m", "pua\U000F0000", "max\U0010FFFF", "bs\b", "ff\f", "cr\rx", "\u2028ls", "\ufeffbom", "\ufffdrepl", "<&>", "u\u0085nel", "\u200bzw")
+		"del\x7f", "bell\a", "v\vt", "\x01soh", "esc\x1b[0m", "pua\U000F0000", "max\U0010FFFF", "bs\b", "ff\f", "cr\rx", "\u2028ls", "\ufeffbom", "\ufffdrepl", "<&>", "u\u0085nel", "\u200bzw",
+		// names that are numbers: a name is text, `10` comes before `9`
+		"9", "10", "100", "2", "+5", "1x", "1e3", "0x10", "٣",
+		// names that differ by a character without width of its own (joiners, selectors)
+		"dev\U0001F469\u200d\U0001F4BB", "dev\U0001F469\U0001F4BB", "mi\u200cra", "mira", "v\ufe0f", "v", "so\u00adft", "soft")
 }
 
 // c19RandomName draws an arbitrary valid-UTF-8 name (1-8 characters) that does not start with '-' and does not contain " -> " or a newline.
@@ -145,7 +149,12 @@ func c19History(e *core.Env, r *core.Rand, idx int64) {
 	// names
 	nN := r.Range(2, 6)
 	var names []string
+	numeric := r.Chance(1, 8) // a history whose names are (almost) all numbers
 	for len(names) < nN {
+		if numeric && r.Chance(5, 6) {
+			names = append(names, r.Pick("9", "10", "100", "2", "+5", "1x", "007", "0", "1e3", "11", "1"))
+			continue
+		}
 		if r.Chance(1, 3) {
 			names = append(names, c19RandomName(r))
 			continue
@@ -477,6 +486,24 @@ func c19Observe(e *core.Env, r *core.Rand, run func(args ...string) (int, string
 		e.Violation("bookmarks-list-unordered", fmt.Sprintf("`bookmarks list` is not ordered by name: %q", order), w())
 		return false
 	}
+	// "ordered by name" means ONE order relation on names: two names stand in the same order in every listing of every
+	// database this process has seen (a comparison that is not transitive shows up as a pair that flips)
+	if len(order) <= 16 {
+		for i := 0; i < len(order); i++ {
+			for j := i + 1; j < len(order); j++ {
+				a, b, first := order[i], order[j], true
+				if a > b {
+					a, b, first = b, a, false
+				}
+				if prev, seen := c19PairOrder[[2]string{a, b}]; seen && prev != first {
+					e.Violation("bookmarks-list-not-one-order", fmt.Sprintf("`bookmarks list` shows %q and %q in this order here and in the opposite order in an earlier listing: %q", order[i], order[j], order), w())
+					return false
+				} else if !seen {
+					c19PairOrder[[2]string{a, b}] = first
+				}
+			}
+		}
+	}
 	// whatever collation "ordered by name" means for names beyond plain lower-case ASCII, it is one order: listing the
 	// same database again shows the same sequence
 	if _, out2, _, ok2 := run("bookmarks", "list"); ok2 && out2 != out {
@@ -593,6 +620,9 @@ func c19Observe(e *core.Env, r *core.Rand, run func(args ...string) (int, string
 	}
 	return true
 }
+
+// c19PairOrder remembers, per pair of names (smaller string first), whether the smaller string was listed first.
+var c19PairOrder = map[[2]string]bool{}
 
 func isLowerASCII(s string) bool {
 	if s == "" {
